@@ -194,7 +194,7 @@ func pairsCovered() int {
 func TestP1Eexec(t *testing.T) {
 	rec := ev.New("C05", "eexec")
 	defer rec.Finish(t)
-	rec.Rule("plaintext: probes that observe systemdict on the dictionary stack (`/eexecprobe 42 def`, `currentdict /add known`), a data program from the C02 generator run inside `userdict begin`, 0-3 binary payloads read with `n string currentfile exch readstring <sep><n bytes> pop` or through an RD procedure `n RD <sep><n bytes>` (one separator byte, then n arbitrary bytes, n up to 1500 so that sections straddle the scanner's 512-byte buffer), optionally dictionaries left on the dictionary stack; ending in `mark currentfile closefile` + one white-space byte (then clear-text trailer: 0-600 zeros in lines, cleartomark, further tokens) or running to the end of input; in a quarter of the cases with a trailer a second eexec section (hex or binary, own prefix, with a readstring payload) follows in the same stream. The encrypted form reaches Execute as a bytes.Reader or, for a third of the cases, as a strings.Reader, bytes.Buffer, bufio.Reader (default and 16-byte), a reader without extra methods, a bytes.Reader positioned behind other data, or a one-byte-per-read io.ByteReader. Encrypted by the harness cipher; the four leading cipher bytes are drawn (any for hex; for binary: first byte not white space and one of the four not a hex digit, corner values included); laid out as hex (digit case per digit, white space of all kinds at any position after the first four digits, any line width) or binary; 0-3 white-space bytes between `eexec` and the section; clear text before the section padded so that the section starts at any offset, half of the time within 12 bytes of a multiple of 512 (the scanner's buffer size). Oracle: same interpreter fed `pre systemdict begin <plaintext> [mark] end... <trailer>`: canonical state (stack incl. the strings read, dict stack, userdict, additions to systemdict, FontDirectory, resources) equal and both runs without error; and, absolutely, every payload is among the strings the encrypted run leaves on the operand stack, byte for byte and in order (a CR separator directly followed by a payload starting with LF is not generated: whether CR LF counts as one separator there is not settled by the references). Non-trivial: section >= 20 plaintext bytes and one of {binary form, interior white space, upper-case hex, payload with a byte < 32 or >= 128, trailer executed after closefile}; distinct by file bytes.")
+	rec.Rule("plaintext: probes that observe systemdict on the dictionary stack (`/eexecprobe 42 def`, `currentdict /add known`), a data program from the C02 generator run inside `userdict begin`, 0-3 binary payloads read with `n string currentfile exch readstring <sep><n bytes> pop` or through an RD procedure `n RD <sep><n bytes>` (one separator byte, then n arbitrary bytes, n up to 1500 so that sections straddle the scanner's 512-byte buffer), optionally dictionaries left on the dictionary stack (fresh ones, or the system dictionary, userdict or the current dictionary begun once more); ending in `mark currentfile closefile` + one white-space byte (then clear-text trailer: 0-600 zeros in lines, cleartomark, further tokens) or running to the end of input; in a quarter of the cases with a trailer a second eexec section (hex or binary, own prefix, with a readstring payload) follows in the same stream. The encrypted form reaches Execute as a bytes.Reader or, for a third of the cases, as a strings.Reader, bytes.Buffer, bufio.Reader (default and 16-byte), a reader without extra methods, a bytes.Reader positioned behind other data, or a one-byte-per-read io.ByteReader. Encrypted by the harness cipher; the four leading cipher bytes are drawn (any for hex; for binary: first byte not white space and one of the four not a hex digit, corner values included); laid out as hex (digit case per digit, white space of all kinds at any position after the first four digits, any line width) or binary; 0-3 white-space bytes between `eexec` and the section; clear text before the section padded so that the section starts at any offset, half of the time within 12 bytes of a multiple of 512 (the scanner's buffer size). Oracle: same interpreter fed `pre systemdict begin <plaintext> [mark] end... <trailer>`: canonical state (stack incl. the strings read, dict stack, userdict, additions to systemdict, FontDirectory, resources) equal and both runs without error; and, absolutely, every payload is among the strings the encrypted run leaves on the operand stack, byte for byte and in order (a CR separator directly followed by a payload starting with LF is not generated: whether CR LF counts as one separator there is not settled by the references). Non-trivial: section >= 20 plaintext bytes and one of {binary form, interior white space, upper-case hex, payload with a byte < 32 or >= 128, trailer executed after closefile}; distinct by file bytes.")
 	rec.Assume("decryption correctness is independent of the library: the cipher text comes from the harness implementation of the Adobe algorithm (t1ref.Encrypt, key 55665, c1 52845, c2 22719)")
 	cfg := psgen.Config{TypeLiteral: true}
 	ev.SetupRapid(60000, 1500000)
@@ -287,7 +287,11 @@ func TestP1Eexec(t *testing.T) {
 		}
 		c.Ends = rapid.IntRange(0, 2).Draw(t, "ends")
 		for i := 0; i < c.Ends; i++ {
-			plain.WriteString("2 dict begin /left 1 def\n")
+			// dictionaries left on the dictionary stack when the section
+			// closes its file: fresh ones, or dictionaries that are on the
+			// stack already (the system dictionary once more, userdict, the
+			// current one)
+			plain.WriteString(rapid.SampledFrom([]string{"2 dict begin /left 1 def\n", "2 dict begin /left 1 def\n", "systemdict begin\n", "userdict begin /leftu 2 def\n", "currentdict begin\n"}).Draw(t, "leftdict"))
 		}
 		c.Ends += left
 		c.Plain = plain.Bytes()
